@@ -227,6 +227,26 @@ func VfC03_TypeChecks() {
 	agg := types.NewStruct(from, types.NewArray(al, to))
 	ir.NewExtractValue(ir.NewParam("a", agg), 1, 2)
 	ir.NewInsertValue(ir.NewParam("a", agg), ir.NewParam("e", to), 1, 2)
+	// floating-point conversions between every pair of kinds ordered by width
+	// (half 16 < float 32 < double 64 < x86_fp80 80 < fp128 128; ppc_fp128 is
+	// 128 bits too and is only converted from / to the narrower kinds)
+	kinds := [...]*types.FloatType{types.Half, types.Float, types.Double, types.X86_FP80, types.FP128, types.PPC_FP128}
+	for i := 0; i < len(kinds); i++ {
+		for j := i + 1; j < len(kinds); j++ {
+			if i == 4 && j == 5 {
+				continue
+			}
+			ir.NewFPExt(ir.NewParam("n", kinds[i]), kinds[j])
+			ir.NewFPTrunc(ir.NewParam("w", kinds[j]), kinds[i])
+			ir.NewFPExt(ir.NewParam("nv", &types.VectorType{Len: n, ElemType: kinds[i], Scalable: scal}), &types.VectorType{Len: n, ElemType: kinds[j], Scalable: scal})
+		}
+		ir.NewFPToSI(ir.NewParam("f", kinds[i]), to)
+		ir.NewUIToFP(ir.NewParam("i", from), kinds[i])
+	}
+	ir.NewZExt(ir.NewParam("z", to), from)
+	ir.NewSExt(ir.NewParam("s", to), from)
+	ir.NewPtrToInt(ir.NewParam("p", &types.PointerType{ElemType: from, AddrSpace: as}), to)
+	ir.NewIntToPtr(ir.NewParam("q", to), &types.PointerType{ElemType: from, AddrSpace: as})
 	vfAssert("C03.constructors.accept-well-typed", true)
 }
 
